@@ -9,7 +9,7 @@ Open Scope Z_scope.
 (* the filter of a query: accepted payload ids (None: no WHERE, everything passes) and the time range checked by
    fitInRange (without RANGE it is [MinTimestamp .. MaxTimestamp]) *)
 Record flt := mkFlt { f_acc : option (list nat); f_min : Z; f_max : Z }.
-Definition MinTimestamp : Z := -6795364578871345152.
+Definition MinTimestamp : Z := -9223372036854775808.   (* model.MinTimestamp = math.MinInt64 *)
 Definition MaxTimestamp : Z := 9223372036854775807.
 
 Definition accepts (f : flt) (x : item) : bool :=
